@@ -514,6 +514,22 @@ func (o *orEndpoint) handle(c net.Conn) {
 
 func (s *system) up(keepLocal bool) error {
 	var err error
+	for attempt := 0; attempt < 4; attempt++ {
+		if err = s.upOnce(keepLocal); err == nil {
+			return nil
+		}
+		// most likely a port picked beforehand was taken by an unrelated process
+		// before our binary could bind it: stop what was started and try again
+		s.stopAll()
+		s.mu.Lock()
+		s.procs = nil
+		s.mu.Unlock()
+	}
+	return err
+}
+
+func (s *system) upOnce(keepLocal bool) error {
+	var err error
 	s.keepLocal = keepLocal
 	var stopStun func()
 	s.stunAddr, stopStun, err = startStun()
@@ -530,7 +546,7 @@ func (s *system) up(keepLocal bool) error {
 	s.brokerAddr = freeAddr()
 	// server (PT managed-proxy environment as tor would set it)
 	os.MkdirAll(filepath.Join(s.dir, "server-state"), 0700)
-	_, err = s.start("server", []string{"-disable-tls", "-log", filepath.Join(s.dir, "server.log")}, []string{
+	srvProc, err := s.start("server", []string{"-disable-tls", "-log", filepath.Join(s.dir, "server.log")}, []string{
 		"TOR_PT_MANAGED_TRANSPORT_VER=1", "TOR_PT_SERVER_TRANSPORTS=snowflake", "TOR_PT_SERVER_BINDADDR=snowflake-" + s.serverAddr,
 		"TOR_PT_ORPORT=" + s.orAddr, "TOR_PT_STATE_LOCATION=" + filepath.Join(s.dir, "server-state"), "TOR_PT_EXIT_ON_STDIN_CLOSE=0"})
 	if err != nil {
@@ -543,10 +559,15 @@ func (s *system) up(keepLocal bool) error {
 	s.fwdAddr = s.fwd.ln.Addr().String()
 	bl := filepath.Join(s.dir, "bridges.json")
 	ioutil.WriteFile(bl, []byte(fmt.Sprintf(`{"displayName":"default", "webSocketAddress":"ws://%s/", "fingerprint":"2B280B23E1107BB62ABFC40DDCC8824814F80A72"}`+"\n", s.fwdAddr)), 0600)
-	_, err = s.start("broker", []string{"-disable-tls", "-addr", s.brokerAddr, "-disable-geoip", "-metrics-log", filepath.Join(s.dir, "metrics.log"),
+	brkProc, err := s.start("broker", []string{"-disable-tls", "-addr", s.brokerAddr, "-disable-geoip", "-metrics-log", filepath.Join(s.dir, "metrics.log"),
 		"-bridge-list-path", bl, "-allowed-relay-pattern", "^127.0.0.1$", "-default-relay-pattern", "^127.0.0.1$"}, nil)
 	if err != nil {
 		return err
+	}
+	// the listeners must belong to OUR processes (see vlib.ListenerOwnedBy)
+	if !vlib.WaitListener(brkProc.cmd.Process.Pid, remotePort(s.brokerAddr), 15*time.Second, func() bool { return !brkProc.alive() }) ||
+		!vlib.WaitListener(srvProc.cmd.Process.Pid, remotePort(s.serverAddr), 15*time.Second, func() bool { return !srvProc.alive() }) {
+		return fmt.Errorf("broker or server does not own a listener on the port picked for it")
 	}
 	if !waitTCP(s.brokerAddr, 10*time.Second) || !waitTCP(s.serverAddr, 10*time.Second) {
 		return fmt.Errorf("broker or server did not start listening")
